@@ -56,13 +56,24 @@ def generate(rng: random.Random, cons: dict) -> dict:
     ndim = cons.get("ndim") or rng.choice([3, 3, 4])
     deep = rng.random() < 0.3  # deeper trees: divisions whose daughters have descendants
     T = rng.randint(5, 6) if deep else rng.randint(2, 6)
+    # big: 45-70 detections with the usual sparse "frame * 100000 + label" ids on larger
+    # frames; numpy/pandas switch algorithms with size and id range (only drawn where the
+    # profile asks for it, so the other profiles' schedules are unchanged)
+    big = bool(cons.get("p_big")) and rng.random() < cons["p_big"]
+    if big:
+        deep = True
+        T = rng.randint(4, 6)
     if ndim == 3:
-        fshape = (rng.randint(6, 10), rng.randint(6, 10))
+        fshape = (rng.randint(20, 28), rng.randint(20, 28)) if big else (rng.randint(6, 10), rng.randint(6, 10))
+    elif big:
+        fshape = (rng.randint(4, 6), rng.randint(12, 14), rng.randint(12, 14))
     else:
         fshape = (rng.randint(3, 4), rng.randint(5, 6), rng.randint(5, 6))
     scale_kind = rng.choice(["none", "ones", "aniso"])
     scale = None if scale_kind == "none" else ([1.0] * ndim if scale_kind == "ones" else [1.0, 2.0, 0.5, 1.5][:ndim])
     dtype = rng.choice(["int32", "int32", "uint16", "uint64", "int64"])
+    if big and dtype == "uint16":
+        dtype = "int32"
     w: dict = {
         "ndim": ndim,
         "shape": [T, *fshape],
@@ -81,11 +92,16 @@ def generate(rng: random.Random, cons: dict) -> dict:
     max_nodes = cons.get("max_nodes", 12)
     if cons.get("empty_ok", True) and rng.random() < 0.06:
         n_nodes = 0
+    elif big:
+        n_nodes = rng.randint(45, 70)
     elif deep:
         n_nodes = rng.randint(8, max_nodes + 4)
     else:
         n_nodes = rng.randint(1, max_nodes)
     id_style = rng.choice(["contig", "contig", "sparse", "large"])
+    if big:
+        id_style = "frame_label"
+    per_frame = [0] * T
     occupied = np.zeros((T, *fshape), dtype=bool)
     nodes: dict = {}
     nid = 1 if id_style != "large" else rng.randint(200, 900)
@@ -93,6 +109,9 @@ def generate(rng: random.Random, cons: dict) -> dict:
     thick = 2 if w["thick3d"] else 1
     for _ in range(n_nodes):
         t = rng.randrange(T)
+        if id_style == "frame_label":
+            per_frame[t] += 1
+            nid = (t + 1) * 100000 + per_frame[t]
         if seg:
             coords = _blob(rng, fshape, occupied[t], thick)
             if coords is None:
@@ -102,8 +121,11 @@ def generate(rng: random.Random, cons: dict) -> dict:
             nodes[str(nid)] = {"t": t, "pix": [list(c) for c in coords]}
         else:
             nodes[str(nid)] = {"t": t, "pos": [float(rng.randint(0, 2 * s)) / 2 for s in fshape]}
-        nid += 1 if id_style == "contig" else rng.choice([1, 2, 5, 17])
+        if id_style != "frame_label":
+            nid += 1 if id_style == "contig" else rng.choice([1, 2, 5, 17])
     w["nodes"] = nodes
+    if big:
+        w["big"] = True
     # ---- edges: random forward forest with divisions and skip edges
     ids = sorted(int(k) for k in nodes)
     tt = {n: nodes[str(n)]["t"] for n in ids}
